@@ -14,7 +14,7 @@ rsync -a --exclude target /verif/harness "$S/"
 sed -i "s#path = \"/repo\"#path = \"$S/repo\"#; s#\"/repo/gsd-parser\"#\"$S/repo/gsd-parser\"#" "$S/harness/Cargo.toml"
 cp /verif/KNOWN_FINDINGS.txt "$S/"
 export PBMC_VERIF_DIR="$S" PBMC_REPO_DIR="$S/repo" CARGO_TARGET_DIR="$S/target"
-out=/verif/SEEDED_REGRESSION.md
+out=${RS_OUT:-/verif/SEEDED_REGRESSION.md}
 tmp="$S/table.md"
 echo "| seeded change | check | expected | now |" > "$tmp"; echo "|---|---|---|---|" >> "$tmp"
 bad=0; n=0
